@@ -224,102 +224,7 @@ func runC01(c *Ctx) {
 	}
 
 	// ---- clause 6: Push siblings
-	for _, recv := range []string{"EventQueueImpl", "unsafeEventQueue"} {
-		push := c.fn("push-shape", "timing", recv, "Push")
-		if push == nil {
-			continue
-		}
-		evF := c.field("push-shape", "timing", recv, "events")
-		nsF := c.field("push-shape", "timing", recv, "nextSeq")
-		seqF := c.field("push-shape", "timing", "queuedEvent", "seq")
-		evtF := c.field("push-shape", "timing", "queuedEvent", "event")
-		if evF == nil || nsF == nil || seqF == nil || evtF == nil {
-			continue
-		}
-		fd := p.Decl(push)
-		info := p.PkgOfDecl(fd).TypesInfo
-		t := ExtractTable(p, push, TableConfig{Domain: dom})
-		construct := "timing." + recv + ".Push"
-		if len(t.Unsupported) > 0 || len(t.Rows) == 0 {
-			c.Unknown("push-shape", construct, fd.Pos(), "Push is outside the analysable fragment: "+strings.Join(t.Unsupported, ";"))
-			continue
-		}
-		ok, why := true, ""
-		for _, r := range t.Rows {
-			app := r.Stores(func(e *Effect) bool { return e.RecvHas(evF) && len(e.Recv) > 0 && e.Recv[len(e.Recv)-1].Obj == evF })
-			inc := r.Stores(func(e *Effect) bool { return e.RecvHas(nsF) })
-			up := r.Calls(func(e *Effect) bool { return e.Callee != nil && e.Callee.Name() == "up" })
-			if len(app) != 1 || len(inc) != 1 || len(up) != 1 {
-				ok, why = false, "Push must append once, advance nextSeq once and sift once on every path"
-				break
-			}
-			// the appended literal carries seq: q.nextSeq and event: the parameter
-			var lit *ast.CompositeLit
-			ast.Inspect(app[0].Node, func(n ast.Node) bool {
-				if cl, isCL := n.(*ast.CompositeLit); isCL && lit == nil {
-					lit = cl
-				}
-				return true
-			})
-			seqOK, evtOK := false, false
-			if lit != nil {
-				for _, el := range lit.Elts {
-					kv, isKV := el.(*ast.KeyValueExpr)
-					if !isKV {
-						continue
-					}
-					k, _ := kv.Key.(*ast.Ident)
-					if k == nil {
-						continue
-					}
-					switch info.ObjectOf(k) {
-					case seqF:
-						if se, isSel := ast.Unparen(kv.Value).(*ast.SelectorExpr); isSel {
-							if s, has := info.Selections[se]; has && s.Obj() == nsF {
-								seqOK = true
-							}
-						}
-					case evtF:
-						if id, isID := ast.Unparen(kv.Value).(*ast.Ident); isID {
-							if v, isVar := info.ObjectOf(id).(*types.Var); isVar && !v.IsField() {
-								evtOK = true
-							}
-						}
-					}
-				}
-			}
-			if !seqOK || !evtOK {
-				ok, why = false, "the appended entry must carry the pushed event and seq = nextSeq (FIFO tie-break)"
-				break
-			}
-			incUp := inc[0].Kind == "incdec" && inc[0].Args[0] == "++" || strings.HasSuffix(strings.ReplaceAll(inc[0].Str, " ", ""), "+=1") || strings.Contains(strings.ReplaceAll(inc[0].Str, " ", ""), "nextSeq+1")
-			if !incUp {
-				ok, why = false, "nextSeq must advance by one per push"
-				break
-			}
-			if !(app[0].Gen < inc[0].Gen) {
-				ok, why = false, "the entry must be stamped before nextSeq is advanced"
-				break
-			}
-			lastIdx := false
-			if call, isCall := up[0].Node.(*ast.CallExpr); isCall && len(call.Args) == 1 {
-				if be, isBin := ast.Unparen(call.Args[0]).(*ast.BinaryExpr); isBin && be.Op == token.SUB {
-					if lit, isLit := ast.Unparen(be.Y).(*ast.BasicLit); isLit && lit.Value == "1" {
-						if lc, isLen := ast.Unparen(be.X).(*ast.CallExpr); isLen && len(lc.Args) == 1 {
-							if id, isID := lc.Fun.(*ast.Ident); isID && id.Name == "len" && exprIsField(p, push, lc.Args[0], evF) {
-								lastIdx = true
-							}
-						}
-					}
-				}
-			}
-			if !(app[0].Gen < up[0].Gen) || !lastIdx {
-				ok, why = false, "the appended slot (last index) must be sifted up after the append"
-				break
-			}
-		}
-		c.Check(ok, "push-shape", construct, fd.Pos(), "append(seq=nextSeq); nextSeq++; up(last) on every path", why)
-	}
+	pushShapeRule(c, dom, []string{"EventQueueImpl", "unsafeEventQueue"})
 	c.Floor("push-shape", 2)
 
 	// ---- clause 7: ownership
@@ -524,4 +429,155 @@ func popShapeRule(c *Ctx) {
 		}
 	}
 	c.Check(why == "", "pop-shape", "timing.popHeap", p.Decl(f).Pos(), "the slice written back is the slice that is sifted", why)
+}
+
+// pushShapeRule: every Push of the named queue types appends one entry stamped
+// with nextSeq, advances nextSeq and sifts the appended (last) slot up on every
+// path.
+func pushShapeRule(c *Ctx, dom []int, recvs []string) {
+	p := c.P
+	for _, recv := range recvs {
+		push := c.fn("push-shape", "timing", recv, "Push")
+		if push == nil {
+			continue
+		}
+		evF := c.field("push-shape", "timing", recv, "events")
+		nsF := c.field("push-shape", "timing", recv, "nextSeq")
+		seqF := c.field("push-shape", "timing", "queuedEvent", "seq")
+		evtF := c.field("push-shape", "timing", "queuedEvent", "event")
+		if evF == nil || nsF == nil || seqF == nil || evtF == nil {
+			continue
+		}
+		fd := p.Decl(push)
+		info := p.PkgOfDecl(fd).TypesInfo
+		t := ExtractTable(p, push, TableConfig{Domain: dom})
+		construct := "timing." + recv + ".Push"
+		if len(t.Unsupported) > 0 || len(t.Rows) == 0 {
+			c.Unknown("push-shape", construct, fd.Pos(), "Push is outside the analysable fragment: "+strings.Join(t.Unsupported, ";"))
+			continue
+		}
+		ok, why := true, ""
+		for _, r := range t.Rows {
+			app := r.Stores(func(e *Effect) bool { return e.RecvHas(evF) && len(e.Recv) > 0 && e.Recv[len(e.Recv)-1].Obj == evF })
+			inc := r.Stores(func(e *Effect) bool { return e.RecvHas(nsF) })
+			up := r.Calls(func(e *Effect) bool { return e.Callee != nil && e.Callee.Name() == "up" })
+			if len(app) != 1 || len(inc) != 1 || len(up) != 1 {
+				ok, why = false, "Push must append once, advance nextSeq once and sift once on every path"
+				break
+			}
+			// the appended literal carries seq: q.nextSeq and event: the parameter
+			var lit *ast.CompositeLit
+			ast.Inspect(app[0].Node, func(n ast.Node) bool {
+				if cl, isCL := n.(*ast.CompositeLit); isCL && lit == nil {
+					lit = cl
+				}
+				return true
+			})
+			seqOK, evtOK := false, false
+			if lit != nil {
+				for _, el := range lit.Elts {
+					kv, isKV := el.(*ast.KeyValueExpr)
+					if !isKV {
+						continue
+					}
+					k, _ := kv.Key.(*ast.Ident)
+					if k == nil {
+						continue
+					}
+					switch info.ObjectOf(k) {
+					case seqF:
+						if se, isSel := ast.Unparen(kv.Value).(*ast.SelectorExpr); isSel {
+							if s, has := info.Selections[se]; has && s.Obj() == nsF {
+								seqOK = true
+							}
+						}
+					case evtF:
+						if id, isID := ast.Unparen(kv.Value).(*ast.Ident); isID {
+							if v, isVar := info.ObjectOf(id).(*types.Var); isVar && !v.IsField() {
+								evtOK = true
+							}
+						}
+					}
+				}
+			}
+			if !seqOK || !evtOK {
+				ok, why = false, "the appended entry must carry the pushed event and seq = nextSeq (FIFO tie-break)"
+				break
+			}
+			incUp := inc[0].Kind == "incdec" && inc[0].Args[0] == "++" || strings.HasSuffix(strings.ReplaceAll(inc[0].Str, " ", ""), "+=1") || strings.Contains(strings.ReplaceAll(inc[0].Str, " ", ""), "nextSeq+1")
+			if !incUp {
+				ok, why = false, "nextSeq must advance by one per push"
+				break
+			}
+			if !(app[0].Gen < inc[0].Gen) {
+				ok, why = false, "the entry must be stamped before nextSeq is advanced"
+				break
+			}
+			lastIdx := pushSiftsLast(p.SSAFunc(push), evF)
+			if !(app[0].Gen < up[0].Gen) || !lastIdx {
+				ok, why = false, "the appended slot (last index) must be sifted up after the append"
+				break
+			}
+		}
+		c.Check(ok, "push-shape", construct, fd.Pos(), "append(seq=nextSeq); nextSeq++; up(last) on every path", why)
+	}
+}
+
+// pushSiftsLast: the index handed to up() is the slot the append filled: either
+// len(events)-1 read after the append, or len(events) read before it (the only
+// store to events in between being the append itself).
+func pushSiftsLast(fn *ssa.Function, evF *types.Var) bool {
+	if fn == nil {
+		return false
+	}
+	var stores []*ssa.Store
+	var ups []ssa.CallInstruction
+	for _, b := range fn.Blocks {
+		for _, in := range b.Instrs {
+			switch x := in.(type) {
+			case *ssa.Store:
+				if f := FieldOf(x.Addr); f != nil && sameObj(f, evF) {
+					stores = append(stores, x)
+				}
+			case ssa.CallInstruction:
+				if sc := x.Common().StaticCallee(); sc != nil && sc.Name() == "up" && len(x.Common().Args) == 2 {
+					ups = append(ups, x)
+				}
+			}
+		}
+	}
+	if len(stores) != 1 || len(ups) != 1 {
+		return false
+	}
+	st := stores[0]
+	lenLoad := func(v ssa.Value) *ssa.UnOp {
+		call, ok := v.(*ssa.Call)
+		if !ok {
+			return nil
+		}
+		if bi, isB := call.Common().Value.(*ssa.Builtin); !isB || bi.Name() != "len" || len(call.Common().Args) != 1 {
+			return nil
+		}
+		ld, isLd := call.Common().Args[0].(*ssa.UnOp)
+		if !isLd || ld.Op != token.MUL {
+			return nil
+		}
+		if f := FieldOf(ld.X); f == nil || !sameObj(f, evF) {
+			return nil
+		}
+		return ld
+	}
+	idx := ups[0].Common().Args[1]
+	if be, ok := idx.(*ssa.BinOp); ok && be.Op == token.SUB {
+		if constIs(be.Y, "1") {
+			if ld := lenLoad(be.X); ld != nil && InstrDominates(st, ld) {
+				return true
+			}
+		}
+		return false
+	}
+	if ld := lenLoad(idx); ld != nil && InstrDominates(ld, st) {
+		return true
+	}
+	return false
 }
